@@ -1530,7 +1530,10 @@ func (rl *Shell) editAndExecuteCommand() {
 	if err != nil || (len(edited) == 0 && len(buffer) != 0) {
 		rl.History.SkipSave()
 
-		errStr := strings.ReplaceAll(err.Error(), "\n", "")
+		errStr := "empty buffer returned"
+		if err != nil {
+			errStr = strings.ReplaceAll(err.Error(), "\n", "")
+		}
 		changeHint := fmt.Sprintf(color.FgRed+"Editor error: %s", errStr)
 		rl.Hint.SetTemporary(changeHint)
 
@@ -1552,7 +1555,10 @@ func (rl *Shell) editCommandLine() {
 	if err != nil || (len(edited) == 0 && len(buffer) != 0) {
 		rl.History.SkipSave()
 
-		errStr := strings.ReplaceAll(err.Error(), "\n", "")
+		errStr := "empty buffer returned"
+		if err != nil {
+			errStr = strings.ReplaceAll(err.Error(), "\n", "")
+		}
 		changeHint := fmt.Sprintf(color.FgRed+"Editor error: %s", errStr)
 		rl.Hint.SetTemporary(changeHint)
 
